@@ -157,6 +157,22 @@ CLAIMS.update({
         ref="§7 C09"),
 })
 
+CLAIMS.update({
+    "C14": dict(
+        technique="Lean 4 theorems about from_unixtime / to_unixtime / at_date on top of the proved calendar bijection (mutual inverses for every timestamp in range, shown fields denote instant + offset, printed integer reads back) + pattern-level theorems on the regenerated rules + differential oracle against Python's datetime over default and explicit zones",
+        text="Proof: `N to date` / `N to ZONE` is the instant N tagged with the configured / requested zone and is rejected outside chrono's range "
+             "(from_unix, from_unix_zone, from_unix_out_of_range); `<date> as unix` = 86400 * day number = midnight UTC, time and date-time give the "
+             "seconds of their instant (date_as_unix, time_as_unix, dateTime_as_unix); the two conversions are mutually inverse for EVERY timestamp "
+             "in range and every zone (unix_round_trip, dateTime_round_trip); the civil date and hour/minute/second shown for an instant in a zone are "
+             "in range and denote exactly instant + 60*offset (shown_fields, from the calendar bijection); the printed timestamp reads back to the "
+             "same integer, every digit (raw_print_all_digits, for every integer); `<date> at <time|hour>` (at_date_time, at_date_hour); the "
+             "regenerated patterns match the phrases (phrase_*). The implementation is compared with Python's datetime: instants, zones, every "
+             "printed field, digits, round trips through variables, under 6+ default zones. One defect repaired in /repo (rule order: `<date> at "
+             "<time> as unix` on one line); the 32-bit saturation of printed timestamps was repaired under C13.",
+        note="Trusted: Lean kernel + 3 axioms; chrono from_timestamp_opt / timestamp modelled by the calendar model (validated on every generated instant); number/zone lexing and set_timezone exercised; how at_date anchors a time under a non-UTC default zone is outside this property.",
+        ref="§7 C14"),
+})
+
 NOT_YET = {}
 
 
